@@ -37,7 +37,7 @@ def build(tier, seed):
         return k
     ks.append(kernel_or_error('opaque_and_blocklisted_traversal', trav))
     def der():
-        k = c08.build(tier, seed)[0]
+        k = [x for x in c08.build(tier, seed) if x.name == 'derive_spec'][0]      # by name: the order of C08's kernels is not an interface
         if k.error:
             return k
         k.harnesses = [h for h in k.harnesses if re.match(r'spec_(copy|debug|default|hash|partialeq)_(Int|Comp)_c0$', h.name)]
